@@ -48,7 +48,12 @@ impl BlockFormatter for BlockIndentRemover {
             Some(pos) => start_byte_pos - pos - 1,
             None => 0,
         };
-        let mut current_pos = start_byte_pos + 1;
+        // The block body starts behind the first line break at or after the start position.
+        let mut current_pos = match find_next_line_break_pos(content, bytes, start_byte_pos, false)
+        {
+            Some(pos) => pos + 1,
+            None => return vec![],
+        };
         let first_indent_len = get_indent_len(content, current_pos);
         let indent_len = first_indent_len.saturating_sub(indent_ofs);
 
